@@ -194,6 +194,13 @@ RAISE_SETS = {
 }
 
 
+def sample_instance(dotted: str):
+    """An instance of a stdlib class whose attributes answer hasattr() questions about such instances (TypeVar only)."""
+    if dotted == "typing.TypeVar":
+        return typing.TypeVar("T")
+    return None
+
+
 def exc_covered(exc: str, handlers: list[str]) -> bool:
     try:
         e = resolve(exc)
